@@ -98,9 +98,12 @@ def _known_complete(events, async_):
         return max(rets) if rets else None
     if not async_:
         return max(rets) if rets else None
-    # async: a save call returns once the PREVIOUS background save has been committed
-    if len(rets) >= 2:
-        return sorted(rets)[-2]
+    # async: a save call that starts a NEW step returns once the previous background save has been committed. A call
+    # for a step that was already requested (the final save of a call repeating the periodic one) is skipped by Orbax
+    # and returns at once, so only distinct steps count.
+    distinct = sorted(set(rets))
+    if len(distinct) >= 2:
+        return distinct[-2]
     return None
 
 
@@ -123,7 +126,9 @@ def judge(case):
         n_saves = len(dry["saves"])
         if split:
             classes.append("two-calls")
-            if dry["calls"][0]["iteration"] < int(split):
+            second_sweeps = dry["calls"][1]["iteration"] - dry["calls"][0]["iteration"] if len(dry["calls"]) > 1 else 0
+            if dry["calls"][0]["iteration"] < int(split) or (second_sweeps == 1 and LIMIT - int(split) > 1):
+                # (a second call of exactly one sweep means the first call had converged exactly at its limit)
                 # the first call already converged: an uninterrupted single call from a restored state would stop earlier
                 # than the two-call dry run continues; not a crash-consistency question
                 return verdict_ok(nontrivial=False, classes=classes + ["first-call-converged"])
@@ -136,6 +141,7 @@ def judge(case):
             d = base / f"k{pi}"
             events_all = []
             r_override = None
+            chain_done = False
             for ci, kp in enumerate(chain):
                 if r_override is not None:
                     break
@@ -159,6 +165,13 @@ def judge(case):
                 rep, rc, err = ckpt.run(scen, wrapper=_wrapper(kp))
                 events = _progress(plog)
                 events_all.append(events)
+                rest = [int(e[1]) for e in events if e and e[0] == "restored"]
+                if ci > 0 and rest and rest[0] >= final["iteration"]:
+                    # the restoring process started from the FINAL checkpoint: the run had finished, anything it computes
+                    # afterwards lies beyond the reference trajectory
+                    classes.append("chain-element-restored-the-final-checkpoint")
+                    chain_done = True
+                    break
                 died = rep is None
                 label = f"plan {kp} (chain position {ci})"
                 if died and rc not in (-9, 137):
@@ -198,6 +211,8 @@ def judge(case):
                 else:
                     rscen = dict(problem=problem, solver=ckpt.with_ckpt(sdesc, d, case["f"], case["m"], case["async_"]),
                                  restore=dict(route="load", dir=str(d)), until=LIMIT, snapshot=False)
+                if chain_done:
+                    break
                 if r_override is None and ci + 1 < len(chain):
                     continue  # the next chain element restores (and is killed) itself; judged after it
                 r = r_override if r_override is not None else ckpt.run_ok(rscen)
@@ -229,7 +244,12 @@ def judge(case):
                 if snap is None:
                     return verdict_fail("restored-iteration-was-never-saved", f"{label}: restored iteration {L}, saves in the reference run: {dry['saves']}",
                                         classes=classes)
-                bad = ckpt.state_equal(got, snap)
+                fields = ("iteration", "values", "policy", "gain", "history", "history_index", "period")
+                if len(chain) > 1 and kind != "pi":
+                    # which (output-only) policy a mid-run checkpoint stores depends on the call history of the process that
+                    # wrote it; a restoring process is a different call history than the dry run
+                    fields = tuple(f for f in fields if f != "policy")
+                bad = ckpt.state_equal(got, snap, fields)
                 if bad:
                     return verdict_fail(f"torn-or-mislabelled-checkpoint:{bad}",
                                         f"{kind}/{problem['kind']} {label} stage={stages[-1]}: step {L} restored with field '{bad}' different from what the "
